@@ -161,6 +161,27 @@ def _pw(t) -> float:
 
 
 def execute(case: dict) -> RunResult:
+    """A call into the library that raises on an input the property covers is a violation, not a harness failure."""
+    try:
+        return _execute(case)
+    except core.HarnessError:
+        raise
+    except Exception as e:
+        if not core.raised_in_library(e):
+            raise
+        kind = case["kind"]
+        comp = {"awgn": "AWGNChannel", "lap": "LaplacianChannel", "nonlin": "NonlinearChannel", "fading": "FlatFadingChannel", "add": "add_noise_for_snr", "conversions": "snr_utils"}[kind.split("_")[0]]
+        res = RunResult()
+        log = EventLog()
+        log.add("case", case)
+        log.add("raised", type(e).__name__)
+        res.violations.append(Violation({"component": comp, "kind": f"exception:{type(e).__name__}", "complex": case["complex"]},
+                                        f"C07/{comp}: a call on an input the property covers raised {type(e).__name__}: {str(e)[:200]} [kind={kind}, complex={case['complex']}, dtype={case['dtype']}, shape={case['shape']}, autograd={case.get('grad_mode')}]"))
+        res.digest, res.n_events = log.digest(), len(log)
+        return res
+
+
+def _execute(case: dict) -> RunResult:
     log = EventLog()
     res = RunResult()
     log.add("case", case)
